@@ -23,6 +23,9 @@ ENVS = {
     # controller keeps sending: a frame every ~1 s / every ~9 s (just inside READER_TIMEOUT)
     "sending": ["A:1037", "F:f"] * 220,
     "slow": ["A:9037", "F:f"] * 60,
+    # controller sends a burst at once, then a frame every ~0.5 s: queued requests go out faster than a device
+    # set-up round (3 s) lasts, so close() returns while set-up request tasks would still be alive
+    "fast": ["F:f"] * 12 + ["A:537", "F:f"] * 40 + ["A:1037", "F:f"] * 200,
     # nothing arrives any more (about 190 s of virtual time)
     "silent": ["A:4037", "A:10037", "A:10037", "A:21037", "A:21037", "A:41037", "A:41037", "A:41037"],
 }
@@ -37,6 +40,9 @@ BASES = [
     (3, 1, [], ["C", "F:s:3:1", "F:f", "A:3037", "F:f", "A:3037", "F:f", "A:3037", "F:f", "P:t:0", "P:m:2", "A:10037"]),
     (3, 0, [], ["C", "F:p:69", "Q:2", "D:h", "F:f", "A:4037", "A:6037", "A:1037"]),
     (3, 1, ["ooo", "e"], ["C", "F:s:1:1", "Q:1", "D:r", "F:f", "A:21037", "F:f", "F:f"]),
+    # sensor data seen, set-up in progress: close() at every point of the three request rounds (3 s each)
+    (3, 1, [], ["C", "F:s:1:1", "A:1037", "F:f", "A:1037", "A:1037", "F:f", "A:1037", "F:p:69", "A:2037", "A:1037", "F:f", "A:1037", "A:1037"]),
+    (2, 0, [], ["C", "F:p:69", "F:s:0:0", "F:f", "F:f", "A:2037", "F:f", "A:1537", "F:f", "A:2537", "F:f", "A:2537", "A:1037"]),
 ]
 
 
@@ -54,6 +60,29 @@ def with_close(base, k, env):
     return (cfg, rc, script, evs[:k] + ["Z"] + ENVS[env])
 
 
+def gated_items(tier):
+    """close() at every quiescent point (no user callback holding a frame) of the gated histories of connhist"""
+    envs = ["sending", "fast", "silent"]
+    n = 0
+    for h in connhist.gated_histories(tier):
+        cfg, rc, script, evs = h
+        if tier == "quick" and (n % 3) != 0:
+            n += 1
+            continue
+        n += 1
+        closed_gate = False
+        for k in range(1, len(evs) + 1):
+            e = evs[k - 1].split(":")[0]
+            if e == "G":
+                closed_gate = True
+            elif e == "R":
+                closed_gate = False
+            if closed_gate or k < evs.index("X"):
+                continue
+            env = envs[(k + n) % 3]
+            yield "gated:" + env, (cfg, rc, script, evs[:k] + ["Z"] + ENVS[env])
+
+
 def gen(rng, tier):
     quick = tier == "quick"
     bases = list(BASES) + [rand_base(rng) for _ in range(250 if quick else 900)]
@@ -62,7 +91,7 @@ def gen(rng, tier):
         n = len(b[3])
         for k in range(0, n + 1):
             if quick and bi >= len(BASES):
-                chosen = [envs[(k + bi) % 3]]
+                chosen = [envs[(k + bi) % len(envs)]]
             else:
                 chosen = envs
             for env in chosen:
@@ -76,7 +105,7 @@ def judge(res, lab, h, segs, extras, info, m):
     zpos = events.index("Z")
     env = lab.split(":")[-1] if ":" in lab else "?"
     before = states[zpos - 1] if zpos > 0 else dict(q="0", c="0", p="0")
-    xb = extras[zpos - 1] if zpos > 0 else dict(classes=dict(rq=0, s=0), drain_mode="ok")
+    xb = extras[zpos - 1] if zpos > 0 else dict(classes=dict(rq=0, s=0, k=0), drain_mode="ok")
     q0 = int(before["q"])
     connected0 = before["c"] == "1" and before["p"] == "1"
     # a state *drains* if nothing is queued, or a producer is sending on a working transport to a controller that
@@ -87,7 +116,9 @@ def judge(res, lab, h, segs, extras, info, m):
     idle_drains = q0 == 0 and xb["classes"]["rq"] == 0 and not xb.get("writing", False)
     sending_drains = (connected0 and sending_env and xb["classes"]["rq"] == 0 and xb.get("drain_mode") == "ok"
                       and not xb.get("writing", False) and not loss_after)
-    drains = idle_drains or sending_drains
+    # frames left in the read queue with no live consumer while nothing is connected: the read-queue side of F1
+    read_starved0 = xb.get("rqsize", 0) > 0 and xb["classes"].get("k", 0) == 0 and before["c"] == "0"
+    drains = (idle_drains or sending_drains) and not read_starved0
     bound = (q0 + 1) * max(connspec.RT, connspec.WT)
     issued = states[zpos]["z"] != "n"
     if not issued:
@@ -104,13 +135,17 @@ def judge(res, lab, h, segs, extras, info, m):
         in_join = "shutdown" in chain and "join" in chain
         qs = [int(s["q"]) for s in states[zpos:]]
         no_progress = len(qs) < 9 or qs[-1] >= qs[-9]
-        starved = info["wq"] > 0 or (info["rq"] or 0) > 0
+        # the F1 match: a non-empty write queue and no producer progress, or a non-empty read queue with no live
+        # consumer while nothing is connected (a connected protocol must have its consumers)
+        write_f1 = info["wq"] > 0 and no_progress
+        read_f1 = (info["rq"] or 0) > 0 and extras[-1]["classes"]["k"] == 0 and states[-1]["c"] == "0"
+        starved = write_f1 or read_f1
         if drains:
             res.fail("spec", dict(history=line), "close() returns (it never deadlocks)",
                      f"close() has not returned {states[-1]['zt']} ms after the call in a state that drains "
                      f"(queued={q0}, bound {bound} ms); blocked in {chain}; quiescent={info['quiescent']}",
                      "close() returns within the bound in a state that drains")
-        elif in_join and starved and no_progress:
+        elif in_join and starved:
             res.count("F1:stuck")
             if res.extra.setdefault("f1_recorded", 0) < 4:
                 res.extra["f1_recorded"] += 1
@@ -126,6 +161,9 @@ def judge(res, lab, h, segs, extras, info, m):
     elif issued:
         res.count("close:returned")
     # correspondence with the model
+    if m == "gated":
+        res.count("oracle-only:gated")
+        return
     if m is None:
         res.fail("corr", dict(history=line), "a model answer", "bad-op", "the model driver rejected the history")
         return
@@ -223,7 +261,7 @@ def read_queue_variant(res):
         res.case(hist, True)
         res.count("read-queue-variant:" + ("stuck" if not close.done() else "returned"))
         if not close.done():
-            if "join" in chain and rq is not None and rq.qsize() > 0 and consumers == 0:
+            if "join" in chain and rq is not None and rq.qsize() > 0 and consumers == 0 and not conn.protocol.connected.is_set():
                 res.fail("spec", dict(history=hist), "close() returns (it never deadlocks)",
                          f"close() blocked in {chain}: read queue holds {rq.qsize()} frame(s), no live consumer (quiescent={loop.quiescent()})",
                          "close() returns", finding="F1")
@@ -263,6 +301,7 @@ def run(ctx):
     items = []
     for fn, ln in load_corpus("C12"):
         items.append(("corpus:" + ("sending" if "F:f" in ln.split("Z")[-1] else "silent"), connhist.parse_line(ln)))
+    items.extend(gated_items(ctx["tier"]))
     items.extend(gen(rng, ctx["tier"]))
     if ctx.get("max_cases"):
         items = items[:ctx["max_cases"]]
